@@ -109,6 +109,16 @@ def run_C14(ctx):
 
 
 def run_C15(ctx):
+    # "a handler that returns its context's error conveys that same classification to the client": the handler's
+    # context ends on the server side alone -- the error scenarios of C02 with the codes canceled / deadline_exceeded
+    from . import p_wire
+    core.design_check(ctx, "MC_Wire", "MC_Wire_Q.cfg")
+    sc = [s for s in core.generate(ctx, "MC_Wire", "Gen_Wire_C02.cfg", tag="genC02")["scenarios"]
+          if s["out"]["kind"] in ("err", "wrapped") and s["out"]["code"] in (1, 4)]
+    sc = core.sample(ctx.rng, sc, 1500 if ctx.tier == "quick" else len(sc))
+    tf = core.run_runner(ctx, "e2e", [dict(s, transport="mem") for s in sc], tag="ctxcodes")
+    acc, rej = core.validate(ctx, "TraceWire", tf, tag="ctxcodes", sigfn=p_wire.sig(ctx.prop))
+    core.judge(ctx, rej)
     return run_call(ctx, True)
 
 
